@@ -3,7 +3,7 @@ file type with extension, path (directory), explicit output names, arrays and
 typed maps of files, structs containing files, nested combinations, null and
 missing files, symbolic links, strings that hold paths."""
 from mro import (call, const, pipeline, program, ref, self_, split, stage, struct, INST, FILE, FILES, FMAP, FSTR, FSTRUCT,
-                 FDIR, FMSTRUCT, FASTRUCT, FILES11, FMISSING, FLINK, FLINK2, FSM, FPLINK, FOUTSIDE, FMAPK, FILES2D, FSO, FINSIDE, FILES3D)
+                 FDIR, FMSTRUCT, FASTRUCT, FILES11, FMISSING, FLINK, FLINK2, FSM, FPLINK, FOUTSIDE, FMAPK, FILES2D, FSO, FINSIDE, FILES3D, FSHARDS)
 
 FT = ("txt", "bam.bai")
 
@@ -42,6 +42,8 @@ def catalogue():
     FSOT = struct("FSO", "file f, file o")
     P.append(one("po_struct_outside", [FSOT], "FSO s, file g", {"s": FSO, "g": FILE}))
     P.append(one("po_arr3d", [], "txt[][][] cube, file[][][] raw", {"cube": FILES3D, "raw": FILES3D}))
+    # shards written under their index in a sub-directory of the files directory
+    P.append(one("po_shards", [], "txt[] parts, file[] more, int n", {"parts": FSHARDS, "more": FSHARDS, "n": const(2)}))
     # one directory returned under two names
     q2 = program("po_dir_twice", [], [stage("P", "int x", "path d, int n", {"d": FDIR, "n": const(1)})],
                  [pipeline("TOP", "int x", "path d, path again, int n", [call("P", binds={"x": self_("x")})],
